@@ -215,4 +215,129 @@ CHECKS = {
                              "frequency_ties", "reorder_output_accepted_by_map", "cost_eval_events_equal_recount"],
         "assumptions": ["with ignore_space the histories use dictionaries meeting C12's precondition (where the skip rule is unambiguous)"],
     },
+    "C10": {
+        "stages": [
+            st("main", "rel", [1500, 60000], [30, 500]),
+            st("dbgassert", "relda", [400, 10000], [25, 300], shards=8),
+            st("asan", "asan", [0, 1500], [0, 300], thorough_only=True, shards=8),
+        ],
+        "rule": "case = a valid file set (generated dictionary of any connector kind, or the bundled resources) with ONE structure-aware edit of "
+                "ONE file (lex.csv, char.def, unk.def, matrix.def, bigram.right/left/cost, user.csv): line dropped/duplicated/swapped, field "
+                "dropped/duplicated/replaced by a boundary value or undefined name, file cut at a field boundary or random byte, final newline "
+                "toggled, empty/comment-only file, raw byte edits, and char.def specials (18-300 categories, LENGTH 15/16/255, undefined or "
+                "commented-out categories on range lines, ranges beyond the BMP). Outcome classifier: a panic of a builder, of the user "
+                "lexicon loader or of a mapping call is a violation. For accepted dictionaries: ~40 adversarial strings are tokenized "
+                "(no panic, ids within the connector, input covered), and when the strict reference parsers also accept the files the "
+                "dictionary must mean what its files say (character table vs reference table incl. the whole BMP on every 20th case, "
+                "partition oracle, reference optimum). Distinct = hash of (edit, file set).",
+        "required_buckets": ["builder_returned_err", "builder_returned_dictionary", "reference_parsers_accept_too", "reference_parsers_decline",
+                             "accepted_dictionary_checked_against_reference_reading", "user_lexicon_rejected", "mapping_sequence_no_panic",
+                             "err_char.def", "err_lex.csv", "err_unk.def", "err_matrix.def", "err_bigram.cost", "seed_bundled_resources"],
+        "assumptions": ["the strict reference parsers accept only a conservative subset of each format; when they decline, only the no-panic and id-range clauses are judged",
+                        "out-of-memory aborts caused by absurd declared sizes are reported as process aborts, not silently ignored"],
+    },
+    "C14": {
+        "stages": [
+            st("main", "rel", [150, 2500], [60, 500]),
+            st("dbgassert", "relda", [30, 300], [40, 300], shards=8),
+        ],
+        "rule": "case = a random small training configuration (2-5 categories, 3-26 seed rows with quoted cells and homographs, unk.def rows in "
+                "shuffled order, 1-4 UNIGRAM and 1-10 BIGRAM templates, 0-3 rewrite rules per section, 1-14 sentences incl. out-of-lexicon "
+                "tokens, 3-22 iterations, lambda 0.001-50, optional user lexicon with 0,0,0 and explicit rows) trained with the real "
+                "trainer (case 0 of every shard: the bundled resources). The emitted lex.csv / unk.def / matrix.def / user.csv are "
+                "re-derived row by row from the hooked model view (merged classes, weights): ids, trunc(-w*32767/max|w|) in either "
+                "association order, verbatim features, unk rows grouped in char.def category order, header dimensions, monotonicity "
+                "of cost in weight, user rows trained iff 0,0,0; the files must compile and cover the training sentences. "
+                "Distinct = hash of the emitted files.",
+        "required_buckets": ["training_succeeded", "with_user_lexicon", "user_row_with_trained_parameters", "user_row_copied_unchanged",
+                             "non_zero_weights", "all_zero_weight_model", "costs_of_both_signs", "non_square_matrix", "emitted_files_compile"],
+        "assumptions": ["the merge of feature weights into connection classes is rucrf's and is trusted here (cross-examined by C16 and C18)"],
+    },
+    "C15": {
+        "stages": [
+            st("main", "rel", [150, 2500], [60, 500]),
+            st("dbgassert", "relda", [30, 300], [40, 300], shards=8),
+        ],
+        "rule": "case = trained model (generator of C14) + an operation sequence chosen by the seed over {generate x2, write_model, read_model, "
+                "read_user_lexicon on both sides (before or after a first generation), generate, second write/read}; the seven files "
+                "generated from the in-memory model and from the reloaded one are compared byte for byte (bigram.cost as a sorted "
+                "multiset); generate twice = once; write_model's count = bytes. Distinct = hash of the generated files.",
+        "required_buckets": ["training_succeeded", "generated_twice", "in_memory_vs_reloaded_compared", "second_round_trip_compared",
+                             "user_lexicon_added_after_a_generation", "user_lexicon_added_before_first_generation"],
+        "assumptions": ["user entries are not part of the stored model (the CLI re-reads them), so user.csv is compared only when both sides read the same user lexicon"],
+    },
+    "C16": {
+        "stages": [
+            st("main", "rel", [150, 2500], [60, 500]),
+            st("avx2", "avx2", [40, 600], [40, 400], shards=8),
+            st("dbgassert", "relda", [30, 300], [40, 300], shards=8),
+        ],
+        "rule": "case = trained model (generator of C14); lex+matrix.def, lex+bigram files (raw) and the same (dual) are compiled and the "
+                "connection cost of EVERY id pair incl. row/column 0 is compared through the cost accessor: |bigram - matrix| <= K+1 "
+                "(K = number of BIGRAM templates), same dimensions, lexicon accepted by all three. Distinct = hash of (matrix.def, bigram.cost).",
+        "required_buckets": ["training_succeeded", "raw_compared", "dual_compared", "pair_with_id_0_compared", "non_zero_cell_compared",
+                             "fewer_than_8_templates", "8_or_more_templates"],
+        "assumptions": [],
+    },
+    "C17": {
+        "stages": [
+            st("main", "rel", [8, 40], [60, 500]),
+            st("dbgassert", "relda", [2, 8], [40, 300], shards=8),
+        ],
+        "rule": "the real parse_rewrite_config + FeatureRewriter::rewrite (function hook) against a linear-scan reference. Even cases: a slice of "
+                "the small scope `all lists of <= 3 rules with patterns of length <= 2 over {*, a, b, (a|b)}` x all 85 feature lists of "
+                "length <= 3 over {a, b, c, *}; the scope is partitioned over (shard, case) so that one run enumerates it completely "
+                "(8420 rule lists x 85 lists); every rule has a distinguishable output; the other two sections hold rules that must not "
+                "interfere. Odd cases: random lists of <= 12 rules, patterns <= 5, outputs mixing text and $n. Distinct = hash of the rule text.",
+        "required_buckets": ["small_scope_slice_enumerated", "random_rule_lists", "some_rule_matched", "no_rule_matched",
+                             "later_rule_shares_first_pattern_with_earlier_rule_across_an_intervening_rule"],
+        "exhaustive_bucket": "small_scope_slice_enumerated",
+        "exhaustive_scope": "rule lists of <= 3 rules with patterns of length <= 2 over {*, a, b, (a|b)} x feature lists of length <= 3 over {a,b,c,*} (complete when total rule_lists_in_small_scope = 8420)",
+        "assumptions": ["rewrite outputs never use $0 (the rule syntax is 1-origin)"],
+    },
+    "C18": {
+        "stages": [
+            st("main", "rel", [400, 6000], [60, 500]),
+            st("dbgassert", "relda", [60, 600], [40, 300], shards=8),
+        ],
+        "rule": "two thirds of the cases (function hook): random template sets (%F/%L/%R, optional %X?[i], %t, literal prefixes, repeated and "
+                "out-of-range indices) over 5-45 interleaved calls with random feature rows incl. short rows; ids returned by the real "
+                "extractor vs an independent expander: suppression, equal strings <-> equal ids per side, final tables identical. One "
+                "third (dictionary level): a model is trained and, for every seed and unknown word, its %R tuple (right rewrite rules) "
+                "and %L tuple (left rewrite rules) are expanded independently: equal tuples => equal left/right id in lex.csv/unk.def, "
+                "and every cell of the id's row in bigram.left/right is '*' or the word's expansion. Distinct = hash of inputs / files.",
+        "required_buckets": ["optional_reference_suppressed_template", "string_seen_again_same_id", "short_feature_row", "training_succeeded",
+                             "words_sharing_a_connection_class", "listed_feature_equals_expansion", "feature_dropped_by_training_shown_as_star",
+                             "with_left_or_right_rewrite_rules"],
+        "assumptions": ["user-lexicon words are excluded from the `equal tuples share an id` clause (features pruned by training are re-interned for them)"],
+    },
+    "C19": {
+        "stages": [
+            st("main", "rel", [1000, 20000], [40, 400], needs_cli=True),
+            st("dbgassert", "relda", [200, 2000], [20, 200], shards=8),
+        ],
+        "rule": "structured corpora (surfaces/features containing EOS, spaces, commas, quotes, multi-byte text; empty sentences) are serialised, "
+                "parsed with Corpus::from_reader, written back with Example::write and re-parsed; a malformed line (no tab, >1 tab, blank) "
+                "inserted at a random place must yield Err. Every 25th case drives the REAL `compile` and `tokenize` binaries on a generated "
+                "dictionary (any connector kind, -S/-M options) with 33 input lines and parses their stdout as a corpus: tokens = the "
+                "tokens obtained in-process for the same lines. Distinct = hash of the corpus text / CLI output.",
+        "required_buckets": ["sentence_without_tokens_dropped", "token_whose_surface_is_EOS", "malformed_line_rejected",
+                             "tokenizer_cli_output_parsed_as_corpus"],
+        "assumptions": ["tokenizer inputs and dictionary features contain no tab or line break"],
+    },
+    "C20": {
+        "stages": [
+            st("main", "rel", [800, 20000], [30, 400]),
+            st("dbgassert", "relda", [200, 2000], [20, 200], shards=8),
+        ],
+        "rule": "random MeCab model descriptions: 1-6 BIGRAM templates with %L/%R and optional %L?/%R? references, id tables of different sizes "
+                "with BOS/EOS at 0, model.def with positive/negative/zero/tiny weights, unmatched, unigram and BOS lines, cost factors "
+                "0.5-700. generate_bigram_info's output is compiled (raw and dual) and the cost of EVERY pair of non-zero ids is compared "
+                "with an independent evaluator: sum over templates applicable to both of -trunc(w*factor) of the line `Lexp/Rexp`; ids "
+                "dense and increasing; a gap, a malformed id line or a non-BOS/EOS id 0 (in either table) must yield Err. "
+                "Distinct = hash of the description.",
+        "required_buckets": ["non_zero_cost_compared", "optional_template_not_applicable", "id_tables_of_different_sizes",
+                             "rejected_gap_among_ids", "rejected_malformed_id_line", "rejected_id_0_not_BOS_EOS"],
+        "assumptions": ["feature values contain no '/' and id tables start at 0 with BOS/EOS, as MeCab's do; duplicate model lines are not generated"],
+    },
 }
